@@ -247,12 +247,18 @@ pub fn path_live_slice(ctx: &Ctx, raw_paths: &[String], samples: &Samples) -> Va
 
 /// C05 live slice: header states against a versioned server with three adjacent ranges.
 pub fn header_live_slice(ctx: &Ctx, max: &str, values: &[(String, Vec<u8>, bool)], samples: &Samples) -> Value {
+    header_live_slice_with(ctx, max, values, true, samples)
+}
+
+/// `restricted = false`: the API has no version-restricted endpoint at all - the version policy is
+/// the server's, not the router's, and still decides every request.
+pub fn header_live_slice_with(ctx: &Ctx, max: &str, values: &[(String, Vec<u8>, bool)], restricted: bool, samples: &Samples) -> Value {
     let rv = |s: &str| RV::parse(s);
-    let ranges = [
-        ("old", Range::Until(rv("1.0.0"))),
-        ("mid", Range::FromUntil(rv("1.0.0"), rv("2.0.0"))),
-        ("new", Range::From(rv("2.0.0"))),
-    ];
+    let ranges: Vec<(&str, Range)> = if restricted {
+        vec![("old", Range::Until(rv("1.0.0"))), ("mid", Range::FromUntil(rv("1.0.0"), rv("2.0.0"))), ("new", Range::From(rv("2.0.0")))]
+    } else {
+        vec![("all", Range::All)]
+    };
     let specs: Vec<Spec> = ranges
         .iter()
         .map(|(op, r)| {
@@ -305,7 +311,7 @@ pub fn header_live_slice(ctx: &Ctx, max: &str, values: &[(String, Vec<u8>, bool)
                 std::str::from_utf8(trimmed).ok().and_then(|s| semver::Version::parse(s).ok()).filter(|sv| sv.build.is_empty()).map(|sv| RV::parse(&sv.to_string())).filter(|v| v.le(&maxv))
             };
             let want_op = want_version.as_ref().and_then(|v| ranges.iter().find(|(_, r)| r.contains(v)).map(|(op, _)| op.to_string()));
-            let case = json!({"kind":"live_request","seam":"version_header","max": max, "value_hex": value.iter().map(|b| format!("{b:02x}")).collect::<String>(), "header_lines": lines});
+            let case = json!({"kind":"live_request","seam":"version_header","max": max, "api_has_version_restricted_endpoints": restricted, "value_hex": value.iter().map(|b| format!("{b:02x}")).collect::<String>(), "header_lines": lines});
             match &r {
                 ReadOutcome::Resp(resp) => {
                     if resp.header("x-request-id").is_empty() {
